@@ -43,53 +43,43 @@ def check_consts(run, F):
 
 
 def check_unit_table(run, F):
+    """into_unit as a decision table: NaT first, same unit unchanged, and for each ordered pair
+    (from = U of self, to = T) multiplication by / floor division by the ratio constant."""
     fn = [f for f in F.fns if f.crate == 'tea_time' and f.name == 'into_unit'][0]
-    m = [x for x in walk(fn.hir) if x.get('k') == 'Match' and 'unit()' in src(peel(x['ch'][0]))]
-    ok = len(m) == 1
-    run.ob('TBL.unit', fn, 'dispatch on (U::unit(), T::unit())', ok, fn.loc(), '%d match(es)' % len(m))
-    if not ok:
-        return 0
+    t = N.tbl(fn)
+    pair = re.compile(r'\(TimeUnitTrait::unit::<(\w+)>\(\), TimeUnitTrait::unit::<(\w+)>\(\)\) is '
+                      r'\((?:\w+::)*(\w+), (?:\w+::)*(\w+)\)')
     seen = set()
-    for a in m[0]['arms']:
-        p = a['pat']
-        if p.get('k') != 'Tuple' or len(p['ch']) != 2 or any(c.get('k') == 'Binding' for c in p['ch']):
+    order_ok = True
+    for cs, leaf, ef in t:
+        hits = [pair.fullmatch(c) for c in cs]
+        hits = [h for h in hits if h]
+        if not hits:
             continue
-        names = [dtree.pat_src(c).split('::')[-1] for c in p['ch']]
-        if not all(x in UNIT_SCALE for x in names):
+        a_, b_, frm, to = hits[0].groups()
+        if frm not in UNIT_SCALE or to not in UNIT_SCALE:
             continue
-        frm, to = names
+        # the scrutinee is (unit of self's type parameter, unit of the target parameter)
+        order_ok = order_ok and (a_, b_) == ('U', 'T')
         seen.add((frm, to))
-        body = peel(a['body'])
-        # DateTime::new(self.0 <op> CONST)
-        inner = peel(body['ch'][1]) if body.get('k') == 'Call' and len(body['ch']) == 2 else None
-        op = const = None
-        if inner is not None:
-            if inner.get('k') == 'Binary':
-                op = inner['op']
-                lhs, rhs = peel(inner['ch'][0]), peel(inner['ch'][1])
-            elif inner.get('k') == 'MethodCall':
-                op = inner['method']
-                lhs, rhs = peel(inner['ch'][0]), peel(inner['ch'][1])
-            else:
-                lhs = rhs = {}
-            const = strip_generics(rhs.get('def', '')).split('::')[-1]
-            lhs_ok = src(lhs) == 'self.0'
-        else:
-            lhs_ok = False
-        ratio = UNIT_SCALE[to] // UNIT_SCALE[frm] if UNIT_SCALE[to] > UNIT_SCALE[frm] else \
-            UNIT_SCALE[frm] // UNIT_SCALE[to]
         coarser = UNIT_SCALE[to] > UNIT_SCALE[frm]
+        ratio = UNIT_SCALE[to] // UNIT_SCALE[frm] if coarser else UNIT_SCALE[frm] // UNIT_SCALE[to]
+        md = re.fullmatch(r'DateTime::new\(self\.0\.div_euclid\(convert::(\w+)\)\)', leaf)
+        mm = re.fullmatch(r'DateTime::new\(\((?:convert::(\w+) \* self\.0|self\.0 \* convert::(\w+))\)\)', leaf)
+        op = 'div_euclid' if md else 'Mul' if mm else None
+        const = md.group(1) if md else (mm.group(1) or mm.group(2)) if mm else None
         cval = F.const_value('convert::' + (const or '?'))
-        want_op = ('div_euclid',) if coarser else ('Mul',)
-        ok = lhs_ok and cval == ratio and op in want_op
-        run.ob('TBL.unit', fn, '%s -> %s' % (frm, to), ok, loc(a['body']),
+        want_op = 'div_euclid' if coarser else 'Mul'
+        ok = op == want_op and cval == ratio and 'VALID(self)' in cs and not ef
+        run.ob('TBL.unit', fn, '%s -> %s' % (frm, to), ok, fn.loc(),
                '`%s`: operator %s (expected %s), constant %s = %s (expected ratio %d)'
-               % (src(body)[:60], op, '/'.join(want_op), const, cval, ratio))
+               % (leaf[:60], op, want_op, const, cval, ratio))
+    run.ob('TBL.unit', fn, 'dispatch on (U::unit(), T::unit())', bool(seen) and order_ok, fn.loc(),
+           'scrutinee order (self unit, target unit): %s' % order_ok)
     want_pairs = {(a, b) for a in UNIT_SCALE for b in UNIT_SCALE if a != b}
     run.ob('TBL.unit', fn, 'all 12 ordered pairs present', seen == want_pairs, fn.loc(),
            'missing %s' % sorted(want_pairs - seen))
     # NaT first
-    t = N.tbl(fn)
     nat_rows = [(cs, l) for cs, l, ef in t if '!VALID(self)' in cs]
     ok = bool(nat_rows) and all(l.endswith('nat()') for cs, l in nat_rows) and \
         all(('VALID(self)' in cs) or ('!VALID(self)' in cs) for cs, l, ef in t)
@@ -398,17 +388,18 @@ def check_months(run, F):
         fn = fns.get(k)
         if fn is None:
             continue
-        uses = [x for x in walk(fn.hir) if x.get('k') == 'Field' and x.get('field') == 'months']
+        t = N.tbl(fn)
         bad = []
-        for e, parents in __import__('facts').walk_with_parents(fn.hir):
-            if e.get('k') == 'Field' and e.get('field') == 'months':
-                # allowed contexts: comparison with 0, `Months::new((±rhs.months) as u32)`
-                ctx = [p for p in parents[-4:]]
-                s_ctx = [src(p)[:60] for p in ctx if p.get('k') in ('Binary', 'Call')]
-                ok = any(p.get('k') == 'Binary' and p['op'] in ('Ne', 'Gt', 'Lt', 'Eq', 'Ge', 'Le')
-                         for p in ctx) or any(p.get('k') == 'Call' and 'Months::new' in src(p['ch'][0])
-                                              for p in ctx)
-                if not ok:
-                    bad.append(s_ctx)
+        uses = 0
+        for cs, leaf, ef in t:
+            for x in [leaf] + list(ef):
+                uses += x.count('rhs.months')
+                rest = x.replace('Months::new(rhs.months)', '').replace('Months::new(-rhs.months)', '')
+                if 'rhs.months' in rest:
+                    bad.append(x[:80])
+            for c in cs:
+                if 'rhs.months' in c and not re.fullmatch(
+                        r'\((0 (<|<=|==|!=) rhs\.months|rhs\.months (<|<=) 0)\)', c):
+                    bad.append(c)
         run.ob('TIME.months', fn, 'DateTime %s: months only via chrono::Months' % k[1], not bad,
-               fn.loc(), '%d use(s) of .months; outside Months::new / sign tests: %s' % (len(uses), bad))
+               fn.loc(), '%d use(s) of rhs.months in values; outside Months::new / sign tests: %s' % (uses, bad))
